@@ -49,6 +49,28 @@ pub struct WorkerCtx {
     pub replay: Option<String>,
 }
 
+impl WorkerCtx {
+    /// workload size for this tier, scaled down for sanitizer parts
+    pub fn pick<T: Scalable>(&self, quick: T, thorough: T) -> T {
+        let n = self.tier.pick(quick, thorough);
+        match self.part.as_str() {
+            "tsan" | "asan" => n.div_min1(8),
+            "miri" => n.div_min1(2000),
+            _ => n,
+        }
+    }
+}
+
+pub trait Scalable: Copy {
+    fn div_min1(self, d: u32) -> Self;
+}
+macro_rules! scalable {
+    ($($t:ty),*) => {$(impl Scalable for $t {
+        fn div_min1(self, d: u32) -> Self { let x = self / (d as $t); if x < 1 { if self < 1 { self } else { 1 } } else { x } }
+    })*};
+}
+scalable!(u8, u16, u32, u64, usize, i32, i64);
+
 /// A violation witness produced by a worker.
 #[derive(Clone, Debug)]
 pub struct Violation {
@@ -168,6 +190,12 @@ pub fn install_panic_recorder() {
         let msg = format!("[{th}] {loc}: {payload}");
         if loud {
             eprintln!("PANIC {msg}");
+            if std::env::var("QV_PANIC_BT").is_ok() && !payload.contains("injected executor panic") {
+                let bt = std::backtrace::Backtrace::force_capture().to_string();
+                for l in bt.lines().filter(|l| l.contains("qbice") || l.contains("/repo/")).take(60) {
+                    eprintln!("   {l}");
+                }
+            }
         }
         if let Ok(mut p) = PANICS.lock() {
             p.push(msg);
@@ -193,6 +221,91 @@ pub struct PartSpec {
     pub env: Vec<(String, String)>,
     /// override program + args prefix (for sanitizer builds); None = current exe
     pub program: Option<Vec<String>>,
+    /// command run once before the shards (builds the sanitizer binary); a
+    /// failure makes the part inconclusive
+    pub prepare: Option<Vec<String>>,
+    /// "miri" | "tsan" | "asan": a worker death is classified by the sanitizer report
+    pub sanitizer: Option<&'static str>,
+}
+
+const MIRIFLAGS: &str = "-Zmiri-tree-borrows -Zmiri-permissive-provenance -Zmiri-ignore-leaks -Zmiri-disable-isolation";
+
+/// A part that runs the same worker code under a sanitizer build of the
+/// harness + /repo (no RocksDB / Fjall in these builds: pure Rust only).
+pub fn sanitizer_part(kind: &'static str, nshards: usize, budget_s: u64) -> PartSpec {
+    let h = format!("{}/harness", verif_root());
+    let s = |v: &[&str]| v.iter().map(|x| x.to_string()).collect::<Vec<_>>();
+    let man = format!("{h}/Cargo.toml");
+    match kind {
+        "miri" => {
+            let td = format!("{h}/target-miri");
+            let base = s(&["cargo", "+nightly", "miri", "run", "--offline", "-q", "--manifest-path", &man, "--no-default-features", "--target-dir", &td, "--bin", "qv", "--"]);
+            let mut prep = base.clone();
+            prep.push("noop".into());
+            PartSpec {
+                name: "miri",
+                nshards,
+                budget_s,
+                env: vec![("MIRIFLAGS".into(), format!("{MIRIFLAGS} -Zmiri-seed={{shard}}")), ("CARGO_NET_OFFLINE".into(), "true".into())],
+                program: Some(base),
+                prepare: Some(prep),
+                sanitizer: Some("miri"),
+            }
+        }
+        "tsan" | "asan" => {
+            let td = format!("{h}/target-{kind}");
+            let mut prep = s(&["cargo", "+nightly", "build", "--offline", "-q", "--release", "--manifest-path", &man, "--no-default-features", "--target-dir", &td, "--target", "x86_64-unknown-linux-gnu", "--bin", "qv"]);
+            let (flags, opts_k, opts_v) = if kind == "tsan" {
+                prep.push("-Zbuild-std".into());
+                ("-Zsanitizer=thread", "TSAN_OPTIONS", "halt_on_error=1:exitcode=66:second_deadlock_stack=1")
+            } else {
+                ("-Zsanitizer=address -Cforce-frame-pointers=yes", "ASAN_OPTIONS", "halt_on_error=1:abort_on_error=0:exitcode=67:detect_leaks=0")
+            };
+            PartSpec {
+                name: if kind == "tsan" { "tsan" } else { "asan" },
+                nshards,
+                budget_s,
+                env: vec![("RUSTFLAGS".into(), flags.into()), (opts_k.into(), opts_v.into()), ("CARGO_NET_OFFLINE".into(), "true".into())],
+                program: Some(vec![format!("{td}/x86_64-unknown-linux-gnu/release/qv")]),
+                prepare: Some(prep),
+                sanitizer: Some(if kind == "tsan" { "tsan" } else { "asan" }),
+            }
+        }
+        _ => unreachable!(),
+    }
+}
+
+/// Classify the stderr of a dead sanitizer worker: (report kind, first frame in /repo/crates)
+fn sanitizer_report(tail: &str) -> Option<(String, Option<String>)> {
+    let kind = if tail.contains("Undefined Behavior") {
+        "undefined-behavior"
+    } else if tail.contains("Data race detected") || tail.contains("ThreadSanitizer: data race") {
+        "data-race"
+    } else if tail.contains("ThreadSanitizer") {
+        "tsan-report"
+    } else if tail.contains("AddressSanitizer") {
+        "asan-report"
+    } else if tail.contains("error: deadlock") || tail.contains("the evaluated program deadlocked") {
+        "miri-deadlock"
+    } else {
+        return None;
+    };
+    // first source position under /repo/crates, line number kept, column stripped
+    let mut frame = None;
+    for l in tail.lines() {
+        if let Some(i) = l.find("/repo/crates/") {
+            let rest = &l[i..];
+            let end = rest.find(|c: char| c.is_whitespace() || c == ')').unwrap_or(rest.len());
+            let mut f = rest[..end].to_string();
+            let parts: Vec<&str> = f.split(':').collect();
+            if parts.len() >= 3 {
+                f = format!("{}:{}", parts[0], parts[1]);
+            }
+            frame = Some(f);
+            break;
+        }
+    }
+    Some((kind.to_string(), frame))
 }
 
 pub struct WorkerOutcome {
@@ -312,7 +425,7 @@ fn run_one(
         cmd.arg(r);
     }
     for (k, v) in env {
-        cmd.env(k, v);
+        cmd.env(k, v.replace("{shard}", &shard.to_string()));
     }
     cmd.stdin(Stdio::null()).stdout(Stdio::piped()).stderr(Stdio::piped());
     let mut child = match cmd.spawn() {
@@ -551,6 +664,31 @@ pub fn run_check(meta: CheckMeta, seed: u64, tier: Tier, replay: Option<&str>) -
     let mut broken = false;
 
     for part in &meta.parts {
+        if replay.is_some() && part.sanitizer.is_some() {
+            continue;
+        }
+        if let Some(prep) = &part.prepare {
+            let tp = Instant::now();
+            let mut c = Command::new(&prep[0]);
+            c.args(&prep[1..]);
+            for (k, v) in &part.env {
+                c.env(k, v.replace("{shard}", "0"));
+            }
+            let out = c.stdin(Stdio::null()).output();
+            let ok = matches!(&out, Ok(o) if o.status.success());
+            if !ok {
+                let tail = match out {
+                    Ok(o) => {
+                        let e = String::from_utf8_lossy(&o.stderr).to_string();
+                        e.lines().rev().take(12).collect::<Vec<_>>().into_iter().rev().collect::<Vec<_>>().join(" | ")
+                    }
+                    Err(e) => e.to_string(),
+                };
+                total.inconclusive.push(format!("part {}: sanitizer build unavailable: {tail}", part.name));
+                continue;
+            }
+            total.count(&format!("{}:build_s", part.name), tp.elapsed().as_secs());
+        }
         let outs = run_part(meta.id, part, seed, tier, replay, max_par);
         for o in outs {
             let wid = format!("{}#{}", o.part, o.shard);
@@ -585,7 +723,26 @@ pub fn run_check(meta: CheckMeta, seed: u64, tier: Tier, replay: Option<&str>) -
                 let case = o.last_case.clone().unwrap_or_else(|| "?".into());
                 let oom = o.stderr_tail.contains("memory allocation")
                     || d.contains("signal: 9");
-                if oom {
+                if let Some(kind) = part.sanitizer {
+                    match sanitizer_report(&o.stderr_tail) {
+                        Some((what, Some(frame))) => all_viol.push((
+                            wid.clone(),
+                            Violation {
+                                signature: format!("{}/{kind}:{what} at {frame}", meta.id),
+                                what: format!("{kind} reported {what}, first frame in the repository: {frame}; case: {case}"),
+                                witness: Json::obj().set("last_case", case).set("stderr_tail", o.stderr_tail.clone()),
+                            },
+                        )),
+                        Some((what, None)) => {
+                            total.count(&format!("{kind}:third_party_reports"), 1);
+                            total.inconclusive.push(format!("{wid}: {kind} {what} with no frame in /repo/crates (third party); case {case}"));
+                        }
+                        None => total.inconclusive.push(format!(
+                            "{wid}: {kind} worker ended abnormally without a sanitizer report ({d}); case {case}; tail: {}",
+                            o.stderr_tail.lines().rev().take(4).collect::<Vec<_>>().join(" | ")
+                        )),
+                    }
+                } else if oom {
                     total.inconclusive.push(format!("{wid}: killed/OOM ({d}) at case {case}"));
                 } else if o.report.is_none() {
                     all_viol.push((
